@@ -465,6 +465,20 @@ if not CONCRETE:
         _core._PATCH_REGISTRATIONS[set] = _set
 
 
+def install_det_sets():
+    """E9b: inside the gtirb modules the name `set` denotes the insertion-ordered EagerSet even while
+    tracing is suspended, so that node sets built untraced iterate deterministically (real sets of
+    nodes iterate in address order, which differs between CrossHair's re-executions)."""
+    if CONCRETE or "E9" not in ACTIVE:
+        return
+    import sys as _sys
+
+    for name, mod in list(_sys.modules.items()):
+        if (name == "gtirb" or name.startswith("gtirb.")) and ".proto" not in name and mod is not None:
+            mod.__dict__["set"] = EagerSet
+    ACTIVE.append("E9b")
+
+
 def warm_up():
     """E6: let networkx compile its argmap-decorated functions before tracing starts."""
     import gtirb
